@@ -55,6 +55,15 @@ def wl_bloom_pairs(ctx, rng, case):
             if rng.random() < 0.5:
                 hname, hf, hname2, hf2 = hname2, hf2, hname, hf
             ctx.count("hash_pairs_sharing_part_of_the_probe_hashes")
+    if case.index % 100 == 13:
+        # a few LARGE pairs: bit arrays of 80 KiB .. 350 KiB (beyond any block / chunk / page size a set operation might work in)
+        from .. import refimpl as _r
+
+        est, rate = rng.choice([(70000, 0.01), (56000, 0.001), (300000, 0.01), (100000, 0.0001)])
+        m, k = _r.bloom_sizing_simple(est, rate)
+        compat_kind = "same"
+        est2, rate2, m2, k2, hname2, hf2 = est, rate, m, k, hname, hf
+        ctx.count("large_bloom_pairs_beyond_64KiB")
     disk = (rng.random() < 0.3, rng.random() < 0.3)
     case.desc = {"kind": "bloom", "compat": compat_kind, "a": (est, rate, hname), "b": (est2, rate2, hname2), "on_disk": disk}
     ctx.observe("pair_kinds", compat_kind)
